@@ -186,10 +186,17 @@ func keysOf(m map[int]bool) []int {
 }
 
 // jsonRoundTrip serialises v with ggql's JSON writer in the three indent modes and decodes it with encoding/json.
+var jsonFailSeq int64
+
 func jsonRoundTrip(v interface{}) string {
 	for _, indent := range []int{-1, 0, 2} {
 		for _, srt := range []bool{false, true} {
 			ggql.Sort = srt
+			if indent == 0 {
+				// a client that went away: the previous write failed part-way; the next response must be whole and alone
+				jsonFailSeq++
+				run.Protect(func() { _ = ggql.WriteJSONValue(&faultyWriter{at: int(jsonFailSeq % 37)}, v, indent) })
+			}
 			var b bytes.Buffer
 			var werr error
 			pv, _ := run.Protect(func() { werr = ggql.WriteJSONValue(&b, v, indent) })
@@ -432,6 +439,32 @@ func runC07(c *run.Ctx) {
 					ec.DC.Doc.Print(lay) // restore positions
 				}
 			}
+		}
+		// a spread of a fragment that is not defined (its name may be the last thing on its line)
+		for _, l := range ec.DC.Doc.AllSelLists() {
+			done := false
+			for _, sel := range *l {
+				if sp, isSp := sel.(*model.Spread); isSp {
+					save := sp.Name
+					sp.Name = "NopeFragZz"
+					t2 := ec.DC.Doc.Print(lay)
+					vs = append(vs, variant{tag: "undefined-spread", text: t2, op: ec.DC.OpName, vars: ec.DC.Vars})
+					sp.Name = save
+					ec.DC.Doc.Print(lay)
+					done = true
+					break
+				}
+			}
+			if done {
+				break
+			}
+		}
+		// resolver errors that come from ggql's own parsers and carry a position in ANOTHER text
+		if len(clean.Calls) > 1 {
+			plan := model.FaultPlan{}
+			cl := clean.Calls[1+r.Intn(len(clean.Calls)-1)]
+			plan[cl.Key] = model.Fault{Kind: "foreign", N: r.Intn(3)}
+			vs = append(vs, variant{tag: "resolver-error-with-foreign-position", text: text, op: ec.DC.OpName, vars: ec.DC.Vars, plan: plan, lines: lines})
 		}
 		// corrupted text
 		for m := 0; m < 2; m++ {
